@@ -1304,6 +1304,13 @@ class Evaluator:
     def call(self, node: ast.Call, env) -> AV:
         f = node.func
         name = f.id if isinstance(f, ast.Name) else None
+        _recv_memo = []
+
+        def recv_of():
+            # the receiver of a method call is evaluated once, whichever branch below looks at it
+            if not _recv_memo:
+                _recv_memo.append(self.ev(f.value, env))
+            return _recv_memo[0]
         ext_ = getattr(self, 'externals', None)
         if ext_:
             txt_ = ast.unparse(f)
@@ -1548,7 +1555,7 @@ class Evaluator:
             return self._decimal_call(target_, self._args(node, env), {k.arg: self.ev(k.value, env) for k in node.keywords if k.arg})
         if isinstance(f, ast.Attribute) and not (isinstance(f.value, ast.Name) and f.value.id in ('self', 'cls', 're', 'datetime', 'math')):
             try:
-                recv_py_ = self.ev(f.value, env)
+                recv_py_ = recv_of()
             except (Unknown, AbsRaise):
                 recv_py_ = None
             if recv_py_ is not None and recv_py_.kind == 'other' and isinstance(recv_py_.val, tuple) and recv_py_.val[0] == 'py' and \
@@ -1631,7 +1638,7 @@ class Evaluator:
             raise AbsRaise('AttributeError', f'super() has no attribute {f.attr}')
         if self.class_table and isinstance(f, ast.Attribute):
             try:
-                recv_ = self.ev(f.value, env) if not (isinstance(f.value, ast.Name) and f.value.id in ('re', 'datetime', 'math', 'calendar', 'operator')) else None
+                recv_ = recv_of() if not (isinstance(f.value, ast.Name) and f.value.id in ('re', 'datetime', 'math', 'calendar', 'operator')) else None
             except Unknown:
                 recv_ = None
             if recv_ is not None and self.is_class_value(recv_):
@@ -1709,7 +1716,7 @@ class Evaluator:
                 if txt == 're.compile':
                     return AV('regex', val=('regex', pat_, flags_))
                 return self._regex_call(txt[3:], pat_, flags_, [self.ev(x, env) for x in rest_[:nflag_]])
-            recv = self.ev(f.value, env)
+            recv = recv_of()
             if self.is_box(recv):
                 recv = self.unbox(recv)
             if recv.kind == 'obj':
